@@ -79,7 +79,7 @@ package linter
 //@ spec typeOfSpec(ctx *CheckerContext, x ast.Expr) types.Type = ite(isNilIface(infoTypeOf(ctx.TypesInfo, x)), UnknownType, infoTypeOf(ctx.TypesInfo, x))
 
 //@ func (*CheckerContext).TypeOf
-//@   prop C14 C01
+//@   prop C14 C01 C03 C13
 //@   requires ctx != nil && ctx.Context != nil && ctx.TypesInfo != nil
 //@   pure
 //@   ensures @typeof-spec result == typeOfSpec(ctx, x)
@@ -93,8 +93,9 @@ package linter
 
 //@ spec sizeOKSpec(ctx *CheckerContext, typ types.Type) bool = !typeIs(typ, "*types.TypeParam") && !(typeIs(typ, "*types.Named") && namedTypeParams(cast(typ, "*types.Named")) != nil) && sizeofSucceeds(ctx.SizesInfo, typ)
 
+// (C03, C13: the answer is a function of the sizes object and the type alone - nothing remembered from earlier calls)
 //@ func (*CheckerContext).SizeOf
-//@   prop C14 C01
+//@   prop C14 C01 C03 C13
 //@   requires ctx != nil && ctx.Context != nil
 //@   requires @typ-non-nil !isNilIface(typ)
 //@   pure
